@@ -13,7 +13,11 @@
 //        ::a64_models                  intrinsics/aarch64_aes.rs
 //        ::encdec / ::expand / ::hazmat   shadow copies of armv8/{encdec,expand,hazmat}.rs   (hazmat: feature hazmat)
 //        ::armv8                       shadow copy of armv8.rs (backends + Aes128/192/256 types), `mod x;` -> `use super::x;`
-// Being the parent of encdec / expand, this module sees their `pub(super)` functions.
+//        ::encdec_k11 / ::armv8_k11    second copies for the AES-128 multi-block obligations only (see a64_pareb_128)
+// Being the parent of encdec / expand, this module sees their `pub(super)` functions; armv8.rs' items that are private
+// to it (struct fields) are reached by transmute / byte comparison.  The public Aes128.. types of an aarch64 build are
+// autodetect.rs' (a union of these types and the fixsliced ones, selected by a cpufeatures token): NOT covered here.
+// The models fix little-endian data (all aarch64-* Rust targets; aarch64_be-* is outside the models).
 //
 // @module file=aes/src/lib.rs
 // @config name=hazmat features=hazmat
@@ -23,8 +27,9 @@
 // @shadow src=aes/src/armv8/expand.rs dst=a64_expand.rs sub="use core::{arch::aarch64::*, mem, slice};=>use core::{mem, slice}; use crate::__vp_armv8::a64_models::*;"
 // @shadow src=aes/src/armv8/hazmat.rs dst=a64_hazmat.rs sub="use core::arch::aarch64::*;=>use crate::__vp_armv8::a64_models::*;"
 // @shadow src=aes/src/armv8.rs dst=a64_armv8.rs sub="pub(crate) mod hazmat;=>pub(crate) use super::hazmat;" sub="mod encdec;=>use super::encdec;" sub="mod expand;=>use super::expand;" sub="mod test_expand;=>mod a64_no_test_expand {}"
-// Second pair of copies, used ONLY by a64_par_128 (see there): as above, plus the two constant indices keys[11] / keys[12]
-// of encrypt_par / decrypt_par written `keys[core::hint::black_box(11)]` / `keys[core::hint::black_box(12)]`.
+// Second pair of copies, used ONLY by the AES-128 multi-block obligations a64_par??_128 / a64_blk???_128 (see there): as
+// above, plus the constant indices keys[11] / keys[12] of encrypt_par / decrypt_par (dead for KEYS = 11) written
+// `keys[core::hint::black_box(11)]` / `keys[core::hint::black_box(12)]`.
 // @shadow src=aes/src/armv8/encdec.rs dst=a64_encdec_k11.rs sub="use core::{arch::aarch64::*, mem};=>use core::mem; use crate::__vp_armv8::a64_models::*;" sub="keys[11]=>keys[core::hint::black_box(11)]" sub="keys[12]=>keys[core::hint::black_box(12)]"
 // @shadow src=aes/src/armv8.rs dst=a64_armv8_k11.rs sub="pub(crate) mod hazmat;=>pub(crate) use super::hazmat;" sub="mod encdec;=>use super::encdec_k11 as encdec;" sub="mod expand;=>use super::expand;" sub="mod test_expand;=>mod a64_no_test_expand {}"
 use bcref::aes as fips;
@@ -332,6 +337,72 @@ a64_par!(a64_pareb_256, a64_parei_256, armv8, Aes256BackEnc, encrypt_block, encr
 // @ob name=a64_pardi_256 props=C04,C02,C03,C20 fn=aes::armv8::encdec::decrypt_par,aes::armv8::Aes256BackDec::decrypt_par_blocks,aes::armv8::Aes256BackDec::decrypt_block timeout=1800
 a64_par!(a64_pardb_256, a64_pardi_256, armv8, Aes256BackDec, decrypt_block, decrypt_par_blocks, 15, 17);
 
+// Through the real `cipher` multi-block API on the shadowed encrypt-only / decrypt-only types, n = PAR + 1 blocks (one
+// full parallel batch through encrypt_par / decrypt_par, then one tail block through encrypt / decrypt): in place and
+// buffer to buffer with guard blocks.  Block contents are distinct concrete tags (the code never branches on contents; all
+// contents are covered by a64_par*), round keys symbolic, stand-ins p_* as above.
+fn tagged<const N: usize>() -> [[u8; 16]; N] {
+    let mut b = [[0u8; 16]; N];
+    let mut i = 0;
+    while i < N {
+        let mut j = 0;
+        while j < 16 {
+            b[i][j] = (i as u8).wrapping_mul(16).wrapping_add(j as u8) ^ 0xc3;
+            j += 1;
+        }
+        i += 1;
+    }
+    b
+}
+macro_rules! a64_blocks {
+    ($name:ident, $m:ident, $ty:ident, $tr:ident, $one:ident, $many:ident, $b2b:ident, $nk:expr, $n:expr) => {
+        #[kani::proof]
+        #[kani::stub(a64_models::vaeseq_u8, p_aese)]
+        #[kani::stub(a64_models::vaesdq_u8, p_aesd)]
+        #[kani::stub(a64_models::vaesmcq_u8, p_aesmc)]
+        #[kani::stub(a64_models::vaesimcq_u8, p_aesimc)]
+        #[kani::unwind(26)]
+        fn $name() {
+            let k: [uint8x16_t; $nk] = any_keys();
+            let c: $m::$ty = unsafe { core::mem::transmute(k) };
+            let inp: [[u8; 16]; $n] = tagged::<$n>();
+            let mut want = [[0u8; 16]; $n];
+            let mut i = 0;
+            while i < $n {
+                let mut b: Block = Array(inp[i]);
+                cipher::$tr::$one(&c, &mut b);
+                want[i] = b.0;
+                i += 1;
+            }
+            let mut blocks = [Array([0u8; 16]); $n];
+            let mut i = 0;
+            while i < $n { blocks[i] = Array(inp[i]); i += 1; }
+            let src = blocks;
+            cipher::$tr::$many(&c, &mut blocks);
+            let mut i = 0;
+            while i < $n { assert!(eq16(&blocks[i].0, &want[i])); i += 1; }
+            let g: [u8; 16] = kani::any();
+            let mut dst = [Array(g); $n + 2];
+            cipher::$tr::$b2b(&c, &src, &mut dst[1..$n + 1]).unwrap();
+            assert!(eq16(&dst[0].0, &g) && eq16(&dst[$n + 1].0, &g));
+            let mut i = 0;
+            while i < $n { assert!(eq16(&dst[i + 1].0, &want[i]) && eq16(&src[i].0, &inp[i])); i += 1; }
+        }
+    };
+}
+// @ob name=a64_blkenc_128 props=C04,C02,C03,C20 kind=bounded bound="n = 22 blocks (PAR + 1), tagged block contents, symbolic round keys" note="on the k11 shadow copies, see a64_pareb_128" fn=aes::armv8::Aes128Enc::encrypt_with_backend,aes::armv8::Aes128BackEnc::encrypt_par_blocks,aes::armv8::Aes128BackEnc::encrypt_block timeout=1800
+a64_blocks!(a64_blkenc_128, armv8_k11, Aes128Enc, BlockCipherEncrypt, encrypt_block, encrypt_blocks, encrypt_blocks_b2b, 11, 22);
+// @ob name=a64_blkdec_128 props=C04,C02,C03,C20 kind=bounded bound="n = 22 blocks (PAR + 1), tagged block contents, symbolic round keys" note="on the k11 shadow copies, see a64_pareb_128" fn=aes::armv8::Aes128Dec::decrypt_with_backend,aes::armv8::Aes128BackDec::decrypt_par_blocks,aes::armv8::Aes128BackDec::decrypt_block timeout=1800
+a64_blocks!(a64_blkdec_128, armv8_k11, Aes128Dec, BlockCipherDecrypt, decrypt_block, decrypt_blocks, decrypt_blocks_b2b, 11, 22);
+// @ob name=a64_blkenc_192 props=C04,C02,C03,C20 kind=bounded bound="n = 20 blocks (PAR + 1), tagged block contents, symbolic round keys" fn=aes::armv8::Aes192Enc::encrypt_with_backend,aes::armv8::Aes192BackEnc::encrypt_par_blocks,aes::armv8::Aes192BackEnc::encrypt_block timeout=1800
+a64_blocks!(a64_blkenc_192, armv8, Aes192Enc, BlockCipherEncrypt, encrypt_block, encrypt_blocks, encrypt_blocks_b2b, 13, 20);
+// @ob name=a64_blkdec_192 props=C04,C02,C03,C20 kind=bounded bound="n = 20 blocks (PAR + 1), tagged block contents, symbolic round keys" fn=aes::armv8::Aes192Dec::decrypt_with_backend,aes::armv8::Aes192BackDec::decrypt_par_blocks,aes::armv8::Aes192BackDec::decrypt_block timeout=1800
+a64_blocks!(a64_blkdec_192, armv8, Aes192Dec, BlockCipherDecrypt, decrypt_block, decrypt_blocks, decrypt_blocks_b2b, 13, 20);
+// @ob name=a64_blkenc_256 props=C04,C02,C03,C20 kind=bounded bound="n = 18 blocks (PAR + 1), tagged block contents, symbolic round keys" fn=aes::armv8::Aes256Enc::encrypt_with_backend,aes::armv8::Aes256BackEnc::encrypt_par_blocks,aes::armv8::Aes256BackEnc::encrypt_block timeout=1800
+a64_blocks!(a64_blkenc_256, armv8, Aes256Enc, BlockCipherEncrypt, encrypt_block, encrypt_blocks, encrypt_blocks_b2b, 15, 18);
+// @ob name=a64_blkdec_256 props=C04,C02,C03,C20 kind=bounded bound="n = 18 blocks (PAR + 1), tagged block contents, symbolic round keys" fn=aes::armv8::Aes256Dec::decrypt_with_backend,aes::armv8::Aes256BackDec::decrypt_par_blocks,aes::armv8::Aes256BackDec::decrypt_block timeout=1800
+a64_blocks!(a64_blkdec_256, armv8, Aes256Dec, BlockCipherDecrypt, decrypt_block, decrypt_blocks, decrypt_blocks_b2b, 15, 18);
+
 // ---------------------------------------------------------------------------------------------------------------
 // C17: the hazmat round functions (aes/src/armv8/hazmat.rs, feature hazmat) == FIPS-197 round transformations
 #[cfg(feature = "hazmat")]
@@ -388,7 +459,7 @@ mod hz {
             j += 1;
         }
     }
-    // @ob name=a64_hz_par8_dec props=C17,C04,C20 cfg=hazmat fn=aes::armv8::hazmat::equiv_inv_cipher_round_par timeout=1800
+    // @ob name=a64_hz_par8_dec props=C17,C04,C20 cfg=hazmat tier=thorough fn=aes::armv8::hazmat::equiv_inv_cipher_round_par timeout=1800
     #[kani::proof]
     #[kani::unwind(20)]
     fn a64_hz_par8_dec() {
@@ -495,7 +566,7 @@ mod ty {
             #[kani::stub(a64_models::vaesdq_u8, s_aesd)]
             #[kani::stub(a64_models::vaesmcq_u8, s_aesmc)]
             #[kani::stub(a64_models::vaesimcq_u8, s_aesimc)]
-            #[kani::unwind(400)]
+            #[kani::unwind(500)]
             fn $conv() {
                 let k: [u8; $kl] = kani::any();
                 let key = Array(k);
@@ -579,42 +650,4 @@ mod ty {
     // @ob name=a64_names_256 props=C19 fn=aes::armv8::Aes256::fmt,aes::armv8::Aes256Enc::fmt,aes::armv8::Aes256Dec::fmt timeout=900
     // @ob name=a64_zero_256 props=C16 cfg=zeroize fn=aes::armv8::Aes256::drop,aes::armv8::Aes256Enc::drop,aes::armv8::Aes256Dec::drop timeout=1800
     a64_types!(a64_conv_256, a64_names_256, a64_zero_256, Aes256, Aes256Enc, Aes256Dec, 32, 15, "Aes256", "Aes256Enc", "Aes256Dec");
-}
-
-// ---------------------------------------------------------------------------------------------------------------
-// EXPERIMENT (quick forms of a64_encrypt_* / a64_decrypt_*): SubBytes / InvSubBytes generalised to an arbitrary
-// byte-wise substitution (a non-deterministic 256-entry table), on both sides at once (the instruction models and the
-// reference both call bcref::aes::sub_bytes / inv_sub_bytes).
-mod gsb {
-    use super::{encdec, eq16, fips, keys_from, Block};
-    use cipher::{Array, inout::InOut};
-    static mut G: [u8; 256] = [0u8; 256];
-    fn g_bytes(s: &[u8; 16]) -> [u8; 16] {
-        let mut o = [0u8; 16];
-        let mut i = 0;
-        while i < 16 {
-            o[i] = unsafe { G[s[i] as usize] };
-            i += 1;
-        }
-        o
-    }
-    macro_rules! a64_enc_g {
-        ($name:ident, $n:expr) => {
-            #[kani::proof]
-            #[kani::stub(bcref::aes::sub_bytes, g_bytes)]
-            #[kani::unwind(17)]
-            fn $name() {
-                unsafe { G = kani::any(); }
-                let rk: [[u8; 16]; $n] = kani::any();
-                let keys = keys_from(&rk);
-                let blk: [u8; 16] = kani::any();
-                let inb: Block = Array(blk);
-                let mut outb = Block::default();
-                unsafe { encdec::encrypt::<$n>(&keys, InOut::from((&inb, &mut outb))); }
-                assert!(eq16(&outb.0, &fips::cipher::<$n>(&rk, &blk)));
-            }
-        };
-    }
-    // @ob name=a64_genenc_11 props=C02,C20 fn=aes::armv8::encdec::encrypt timeout=1800
-    a64_enc_g!(a64_genenc_11, 11);
 }
